@@ -2,7 +2,7 @@
    A stored constraint KDiseq ps means "not all equations of ps hold": [holds th ps].
    th ranges over *all* substitutions that solve the current bindings ([sat th s]). *)
 From Coq Require Import List ZArith Bool Arith.
-From PV Require Import Model.Term Model.Subst Model.Unify Model.FD Model.State Proofs.UnifyProofs Proofs.DiseqProofs Model.Engine Proofs.SemProofs Proofs.MonoProofs Proofs.DenProofs Proofs.FDDen Proofs.FDComp Proofs.DisunifyC.
+From PV Require Import Model.Term Model.Subst Model.Unify Model.FD Model.State Proofs.UnifyProofs Proofs.DiseqProofs Model.Engine Proofs.SemProofs Proofs.MonoProofs Proofs.DenProofs Proofs.FDDen Proofs.FDComp Proofs.DisunifyC Spec.StreamSem Proofs.EngineProofs Proofs.Complete0.
 Import ListNotations.
 
 (* posting u != v: nothing is stored when u and v can never be equal, the goal fails when they are
@@ -85,6 +85,19 @@ Proof. exact state_disunify_C. Qed.
 Theorem C02_recheck_complete : forall f st, WFD st -> sresCP QT st (run_constraints f st).
 Proof. exact run_constraints_C. Qed.
 
+(* EXACTLY the solutions, for the programs this property quantifies over: goals built from ==, !=,
+   interleaving conjunction and disjunction and fresh variables (flatT), run from the initial state.
+   Den0 th g is the logical reading (== equality, != difference, conjunction, disjunction).
+   (1) every valuation that solves a delivered answer (its substitution and its disequalities)
+       satisfies the reading: answers have no wrong instances;
+   (2) every valuation that satisfies the reading solves some answer that is delivered after
+       finitely many steps (or an engine step fails with an error outcome first): no solution is
+       missing.  The reading does not mention the order of conjuncts or clauses. *)
+Theorem C02_exactly_the_solutions : forall defs g m th, flatT g ->
+  (forall k u n a rest u', next defs k u (start defs n g (empty_state m)) = NAnswer a rest u' -> MstG th a -> Den0 th g) /\
+  (Den0 th g -> exists a n, MstG th a /\ emitsE (startq defs) n (startq defs g (empty_state m)) a).
+Proof. exact tree_program_exact. Qed.
+
 Print Assumptions C02_post_diseq.
 Print Assumptions C02_recheck.
 Print Assumptions C02_subsumes.
@@ -96,3 +109,4 @@ Print Assumptions C02_diseq_den.
 Print Assumptions C02_rerun_refines.
 Print Assumptions C02_diseq_complete.
 Print Assumptions C02_recheck_complete.
+Print Assumptions C02_exactly_the_solutions.
